@@ -13,7 +13,9 @@ RULE = ("(a) every history of length <=2 (quick) / <=3 (thorough) over the 12-op
         "plus random histories of up to 6 writes with values containing '@', backslashes and newlines; "
         "(b) write_database runs over generated schema pairs (columns added/dropped/reordered, relations "
         "added/dropped), names subsets, gzip, in place and to a new or pre-populated directory. After "
-        "every step the directory listing and the records read back are compared. Non-trivial = contains "
+        "every step the directory listing and the records read back are compared; (c) relations given by their "
+        "lines (well formed, with empty columns, malformed escapes, ill-typed integers, too few or too many columns) "
+        "read through Database raw, autocast and select_from raw and cast. Non-trivial = contains "
         "an append, a rejected request or a schema change; distinct = canonical JSON.")
 EXHAUSTIVE = {"quick": True, "thorough": True}
 EXPLANATION = ("Relation-level theorems hold for any line type, any initial files and any write sequence; "
@@ -32,7 +34,9 @@ LEVEL_TEXT = ("Proof (Coq, no axioms): for any line type, initial file state and
               "(compressed iff requested and non-empty), the rejection condition is characterised exactly; "
               "write_database (new directory or in place, optional re-make under another schema) leaves in "
               "every written relation exactly the expected lines in one form, no file for unwritten "
-              "relations of the target schema, everything else untouched. Tied to delphin/tsdb.py by "
+              "relations of the target schema, everything else untouched; reading back the lines written from records "
+              "through the raw, cast and column-selecting interfaces of Database gives the records, their casts and "
+              "their projections (C09_read_written, C09_read_cast, C09_select_written). Tied to delphin/tsdb.py by "
               "kernel-checked correspondence on real directories incl. an exhaustive short-history stream.")
 LEVEL_NOTE = ("Partial: gzip, file mtimes and temp-file staging are runtime oracles; the relations-file "
               "text round trip is not modelled. Lines are joined/split with the C08 model.")
@@ -158,10 +162,13 @@ def gen(rng, tier):
         cases.append({"k": "wdb", "src_schema": src_schema, "src": src, "dst": dst, "inplace": inplace,
                       "names": names, "new_schema": new if use_new else None,
                       "gzip": rng.random() < 0.4})
+    cases.extend(_gen_reads(tier))
     return cases
 
 
 def nontrivial(c):
+    if c["k"] == "reads":
+        return len(c["lines"]) >= 2
     if c["k"] == "writes":
         return any(o["append"] for o in c["ops"]) or len(c["ops"]) > 1
     return c["new_schema"] is not None or c["inplace"]
@@ -324,6 +331,8 @@ def _all_names(c):
 
 
 def observe(c):
+    if c["k"] == "reads":
+        return _observe_reads(c)
     if c["k"] == "writes":
         return {"steps": _run_writes(c)}
     return _run_wdb(c)
@@ -342,6 +351,8 @@ def _norm_rec(rec):
 def oracle(c):
     """The property stated directly on the implementation (value space: first
     column a non-None integer, second a string or None)."""
+    if c["k"] == "reads":
+        return None          # decided by the correspondence with the read model
     if c["k"] == "writes":
         steps = _run_writes(c)
         init = c["init"]
@@ -437,6 +448,74 @@ def known_match(case, failure, known):
 DT = {":integer": "TInt", ":string": "TStr", ":float": "TFloat", ":date": "TDate"}
 
 
+R_FIELDS = [["i-id", ":integer"], ["i-input", ":string"], ["i-wf", ":integer"], ["i-comment", ":string"]]
+R_VALS = {":integer": ["0", "7", "-1", "12", "", "x1", "+3", "007"],
+          ":string": ["It rains.", "a\\sb", "q\\\\", "n\\nl", "", "x", "bad\\q", "end\\"]}
+
+
+def _gen_reads(tier):
+    """relations given by their lines (well-formed, with empty columns, with malformed escapes, with
+    ill-typed integers, with too few or too many columns) and a column selection"""
+    import random
+    lrng = random.Random("c09-reads-" + tier)
+    out = []
+    for _ in range(120 if tier == "quick" else 1500):
+        fields = lrng.sample(R_FIELDS, lrng.randrange(1, 5))
+        lines = []
+        for _ in range(lrng.randrange(0, 4)):
+            cols = [lrng.choice(R_VALS[dt]) for _, dt in fields]
+            r = lrng.random()
+            if r < 0.06:
+                cols = cols[:-1]
+            elif r < 0.12:
+                cols = cols + ["extra"]
+            lines.append("@".join(cols))
+        names = [n for n, _ in fields]
+        cols = lrng.sample(names, lrng.randrange(1, len(names) + 1))
+        if lrng.random() < 0.15:
+            cols = cols + [lrng.choice(names)]          # a column selected twice
+        if lrng.random() < 0.05:
+            cols = cols + ["bogus"]
+        out.append({"k": "reads", "fields": fields, "lines": lines, "cols": cols})
+    return out
+
+
+def _observe_reads(c):
+    import os
+    import shutil
+    import tempfile
+    import warnings
+    from delphin import tsdb
+    d = tempfile.mkdtemp(prefix="verif_c09r_")
+    try:
+        with open(os.path.join(d, "relations"), "w") as f:
+            f.write("item:\n" + "\n".join("  %s %s" % (n, dt) for n, dt in c["fields"]) + "\n")
+        with open(os.path.join(d, "item"), "w", encoding="utf-8", newline="\n") as f:
+            f.write("".join(l + "\n" for l in c["lines"]))
+
+        def attempt(fn):
+            try:
+                with warnings.catch_warnings():
+                    warnings.simplefilter("ignore")
+                    return {"v": [list(r) for r in fn()]}
+            except (tsdb.TSDBError, ValueError, KeyError, IndexError) as e:
+                return {"err": type(e).__name__}
+        return {"raw": attempt(lambda: tsdb.Database(d)["item"]),
+                "cast": attempt(lambda: tsdb.Database(d, autocast=True)["item"]),
+                "sel": attempt(lambda: tsdb.Database(d).select_from("item", c["cols"])),
+                "selc": attempt(lambda: tsdb.Database(d).select_from("item", c["cols"], cast=True))}
+    finally:
+        shutil.rmtree(d, ignore_errors=True)
+
+
+def _reads_case(c, o):
+    def opt(x, f):
+        return "None" if "err" in x else "(Some %s)" % clist(x["v"], lambda r: clist(r, f))
+    return app("CRead", _fs(c["fields"]), clist(c["lines"], cstr), clist(c["cols"], cstr),
+               opt(o["raw"], lambda v: copt(v, cstr)), opt(o["cast"], _value),
+               opt(o["sel"], lambda v: copt(v, cstr)), opt(o["selc"], _value))
+
+
 def _fs(fs):
     return clist(fs, lambda f: "{| f_name := %s; f_type := %s |}" % (cstr(f[0]), DT[f[1]]))
 
@@ -472,6 +551,8 @@ def _sch(s):
 def coq_case(c, o):
     if "exc" in o:
         raise ValueError("harness")
+    if c["k"] == "reads":
+        return _reads_case(c, o)
     if c["k"] == "writes":
         ops = clist(c["ops"], lambda op: "(%s, %s, %s)" % (
             clist(op["recs"], lambda r: clist(r, _value)), cbool(op["append"]), cbool(op["gzip"])))
